@@ -42,7 +42,6 @@ CFG_KEY = "vk"
 CFG_VALS = {None: 0, "v1": 1, "v2": 2}
 UNKNOWN = 99
 BADTREE = 98
-MAXREV = 8           # ids c6, c7, c8 may be created by commits
 VFS_OPS = {"commit", "pull", "pushout"}
 MUTATORS = {"commit", "fetch", "settip", "genhist", "pull", "push", "settag", "deltag", "setcfg", "lock", "unlock"}
 # documented representation differences of error classes (op -> {class -> canonical class})
@@ -76,8 +75,10 @@ def exc_name(e):
     return n
 
 
-def model_cfg(vfs, maxlen, quick, invariants=("StateOK", "ReadsArePure", "RefusalIsNoop", "OutsWellTyped",
-                                             "FetchSetTipIsOverwritePull", "OutIsAncestry")):
+INVARIANTS = ("StateOK", "DoOK", "FetchSetTipIsOverwritePull", "OutIsAncestry")
+
+
+def model_cfg(vfs, maxlen, quick, invariants=INVARIANTS):
     c = dict(Vfs="TRUE" if vfs else "FALSE", MaxLen=maxlen, MaxCommits=1 if quick else 2, MaxHeld=2,
              FetchRevs="{3, 4, 5}", TipRevs="{0, 1, 2, 4}", GenRevs="{3, 5}", TagRevs="{1, 3}", ReadRevs="{3, 4, 6}",
              ReadNos="{0, 2, 3}", CfgVals="{1, 2}", Srcs='{"A", "X"}')
@@ -138,6 +139,11 @@ def commit_text(r):
     return b"content of c%d\n" % r
 
 
+def dotted(revno):
+    """A revno tuple (n,) or (x, y, z) as three numbers."""
+    return (list(revno) + [0, 0, 0])[:3] if len(revno) <= 3 else [UNKNOWN] * 3
+
+
 def rev_meta(rev):
     return [rev.message, rev.committer, int(rev.timestamp), rev.timezone, [p.decode() for p in rev.parent_ids]]
 
@@ -147,10 +153,11 @@ TCP_PATHS = 40
 KNOWN_DEFECT_PATHS = (
     (("lock",), ("settag", "t1", 1), ("pull", "X", 0), ("settag", "t1", 3)),     # t2, merged by the pull, is lost
     (("lock",), ("pull", "X", 0), ("deltag", "t1"), ("pull", "X", 0)),           # t1 is not merged again
+    (("lock",), ("askabsent",), ("pushout",), ("commit",), ("parentmap",)),      # the committed revision stays "missing"
 )
 # TLC -continue reports the FIRST violated invariant of a state: most specific witnesses first
 WITNESSES = ("WitnessCommitOnSide", "WitnessNestedLock", "WitnessPendingConfig", "WitnessGhostTag", "WitnessTagConflict",
-             "WitnessDiverged", "WitnessOffMainline")
+             "WitnessDiverged", "WitnessMergedRows", "WitnessOffMainline")
 
 
 class Session:
@@ -351,10 +358,15 @@ class Session:
                 return [b.revision_id_to_revno(rid(a[1]))]
             if op == "revidat":
                 return [num(b.get_rev_id(a[1]))]
+            if op == "askabsent":
+                nxt = max([len(G0)] + list(self.parent_of)) + 1
+                return [nxt] if b.repository.get_parent_map([rid(nxt)]) else []
             if op == "parentmap":
-                pm = b.repository.get_parent_map([rid(r) for r in range(1, MAXREV + 1)] + [b"unknown-id"])
+                # every revision that exists anywhere (prepared ones, present here or not, and the commits made so far)
+                ids = sorted(set(range(1, len(G0) + 1)) | set(self.parent_of))
+                pm = b.repository.get_parent_map([rid(r) for r in ids] + [b"unknown-id"])
                 v = []
-                for r in range(1, MAXREV + 1):
+                for r in ids:
                     if rid(r) in pm:
                         ps = [num(p) for p in pm[rid(r)] if p != b"null:"]
                         v += [r, len(ps)] + ps
@@ -366,6 +378,14 @@ class Session:
                 tree = b.repository.revision_tree(rid(a[1]))
                 tid, meta = self.tree_id(a[1], tree, rev)
                 return [tid, meta] + [num(p) for p in rev.parent_ids]
+            if op == "mergesorted":
+                v = []
+                for revid, depth, revno, _eom in b.iter_merge_sorted_revisions():
+                    v += [num(revid), depth] + dotted(revno)
+                return v
+            if op == "revnomap":
+                m = {num(k): dotted(d) for k, d in b.get_revision_id_to_revno_map().items()}
+                return [x for r in sorted(m) for x in [r] + m[r]]
             if op == "tags":
                 return self.tagvals(b.tags.get_tag_dict())
             if op == "getcfg":
@@ -459,50 +479,177 @@ def first_difference(acts, ref, other):
     return None
 
 
-# Tag operations of a RemoteBranch go two ways: set_tag / delete_tag / tag reads / push INTO it use RemoteBranch's own tag
-# cache and the Branch.set_tags_bytes verb; pull INTO it and push OUT of it run on the VFS fallback object _real_branch.
-TAG_VERB_WRITERS = {"settag", "deltag", "push"}
-TAG_VERB_USERS = TAG_VERB_WRITERS | {"tags", "pullout"}
-TAG_REAL_WRITERS = {"pull"}
-TAG_REAL_USERS = TAG_REAL_WRITERS | {"pushout"}
+# ----------------------------------------------------------------------------- the known defect, modelled exactly
+# Tag operations of a RemoteBranch go two ways: set_tag / delete_tag / tag reads / push INTO it / pull OUT of it use
+# RemoteBranch's own tag cache (_tags_bytes) and the Branch.set_tags_bytes verb; pull INTO it and push OUT of it run on
+# the VFS fallback object _real_branch, which has a tag cache of its own.  While the client holds the write lock both
+# caches live, and a tag write on one side does not reach the other (known finding).  What the unchanged code does then
+# is deterministic, and is modelled here so that ONLY that behaviour gets the known finding's signature:
+#   * a cache is filled from the stored tags on first use and replaced by what its side writes;
+#   * both are dropped when the outermost lock is released and when RemoteBranch changes the tip by a verb
+#     (set_last_revision_info, generate_revision_history, commit, a push INTO the branch that sets the tip);
+#   * a pull INTO the branch that sets the tip drops the _real_branch cache only (BzrBranch.set_last_revision_info);
+#   * a tag merge writes only when it changes the dictionary it read.
+TAG_VERB_USERS = {"settag", "deltag", "push", "tags", "pullout"}
+TAG_REAL_USERS = {"pull", "pushout"}
 
 
-def stale_tag_cache_class(acts, k, mode, what, x, y):
-    """Input class of the known defect 'a write-locked RemoteBranch and its _real_branch cache the tags independently':
-    the first local/remote difference is at a tag operation made while the client holds the write lock, after a tag
-    WRITE that went the other way (verb vs _real_branch) under the same lock, and concerns nothing but tags.
-    Returns the signature's input-class part, or None."""
-    if mode not in ("vfs", "tcp"):
-        return None
-    held, since = 0, None
-    for i, a in enumerate(acts[:k]):
-        if a[0] == "lock":
+def merge_tags(src, dst, ov):
+    """_reconcile_tags for the two names: (result, [update t1, update t2, conflict t1 src, dst, conflict t2 src, dst])."""
+    res, upd, conf = dict(dst), [], []
+    for t in TAGS:
+        sv, dv = src.get(t, 0), dst[t]
+        takes = sv and sv != dv and (dv == 0 or ov)
+        clash = sv and dv and sv != dv and not ov
+        if takes:
+            res[t] = sv
+        upd.append(sv if takes else 0)
+        conf += [sv, dv] if clash else [0, 0]
+    return res, upd + conf
+
+
+def known_defect_prediction(acts, local):
+    """The run through bzr:// (VFS verbs enabled) that the unchanged code with its KNOWN tag-cache defect produces:
+    the local run with every tag-related return value and the stored tags replaced by what the two-cache model gives.
+    Equals the local run whenever the two caches never disagree."""
+    D = {t: 0 for t in TAGS}          # stored tags
+    cache = {"verb": None, "real": None}
+    held, tip = 0, 1
+    out = []
+    for a, (err, val, disk) in zip(acts, local):
+        op, perr, pval = a[0], err, list(val)
+        locked = held > 0
+
+        def view(side):
+            if not locked:
+                return dict(D)
+            if cache[side] is None:
+                cache[side] = dict(D)
+            return dict(cache[side])
+
+        def write(side, v):
+            D.clear()
+            D.update(v)
+            if locked:
+                cache[side] = dict(v)
+
+        def drop(*sides):
+            for x in sides:
+                cache[x] = None
+
+        moved = disk["tip"] != tip
+        if op == "settag":
+            v = view("verb")
+            v[a[1]] = a[2]
+            write("verb", v)
+        elif op == "deltag":
+            v = view("verb")
+            if v[a[1]] == 0:
+                perr, pval = "NoSuchTag", []
+            else:
+                perr, pval = "", []
+                v[a[1]] = 0
+                write("verb", v)
+        elif op == "tags":
+            v = view("verb")
+            pval = [v[t] for t in TAGS]
+        elif op in ("pullout", "pushout") and not err:
+            v = view("verb" if op == "pullout" else "real")
+            tv = [v[t] for t in TAGS]
+            pval = pval[:4] + tv + [0, 0, 0, 0] + tv + pval[12:]
+        elif op in ("push", "pull") and not err:
+            side = "verb" if op == "push" else "real"
+            if a[2] or moved:                       # the tip is set before the tags are merged
+                drop("verb", "real") if op == "push" else drop("real")
+            v = view(side)
+            res, report = merge_tags(SOURCES[a[1]][1], v, bool(a[2]))
+            if res != v:
+                write(side, res)
+            pval = pval[:4] + report + pval[10:]
+        elif op in ("settip", "genhist", "commit") and not err:
+            drop("verb", "real")
+        elif op == "lock":
             held += 1
-            if held == 1:
-                since = i
-        elif a[0] == "unlock" and held:
+        elif op == "unlock" and held:
             held -= 1
-    if not held:
-        return None
-    op = acts[k][0]
-    before = {a[0] for a in acts[since:k]}
-    if op in TAG_REAL_USERS and before & TAG_VERB_WRITERS:
-        cls = "real-branch-tag-use-after-verb-tag-write"
-    elif op in TAG_VERB_USERS and before & TAG_REAL_WRITERS:
-        cls = "verb-tag-use-after-real-branch-pull"
-    else:
-        return None
-    if what == "state":
-        if {f for f in x[2] if x[2][f] != y[2].get(f)} - {"t1", "t2"}:
-            return None
-    elif what == "returns":
-        if x[0] or y[0]:
-            return None
-        if op != "tags" and (x[1][:4] != y[1][:4] or x[1][12:] != y[1][12:]):
-            return None                   # revnos / revision ids / fetched revisions differ too
-    else:
-        return None
-    return cls
+            if not held:
+                drop("verb", "real")
+        tip = disk["tip"]
+        out.append([perr, pval, dict(disk, **{t: D[t] for t in TAGS})])
+    return out
+
+
+REPO_READS = {"parentmap", "askabsent", "mergesorted", "revnomap", "readrev", "allrevs", "pullout", "pushout", "revnoof",
+              "revidat"}
+
+
+def stale_missing_revision_class(acts, k, mode, local, remote):
+    """Input class of the known defect 'a write-locked RemoteRepository that was told a revision is missing keeps
+    saying so after that revision is committed through it, once its VFS fallback repository was attached before the
+    commit': the first local/remote difference is at a repository / history read; under the lock still held there
+    the client asked for the id of the next commit (askabsent), then committed it; an operation that attaches the
+    fallback objects (pull INTO, push OUT, commit) came before that commit; and the local answer names the
+    committed revision."""
+    if mode not in ("vfs", "tcp") or acts[k][0] not in REPO_READS:
+        return False
+    held, asked, attached, stale = 0, False, False, None
+    for a, step in zip(acts[:k], local):
+        op = a[0]
+        if op == "lock":
+            held += 1
+        elif op == "unlock" and held:
+            held -= 1
+            if not held:
+                asked, stale = False, None
+        elif op == "askabsent" and held:
+            asked = True
+        elif op == "commit" and not step[0]:
+            if asked and attached:
+                stale = step[1][0]
+            asked = False
+        if op in VFS_OPS:
+            attached = True
+    return stale is not None and held > 0 and (stale in local[k][1]) and (stale not in remote[k][1])
+
+
+def compare_runs(acts, mode, local, remote):
+    """Verdicts on one bzr:// run: list of (signature, description, step index, what).  The first entry, if any, is at the
+    first step where the run differs from the local one."""
+    d = first_difference(acts, local, remote)
+    if d is None:
+        return []
+    k, what, detail = d
+    verdicts = []
+    ref = local
+    if mode in ("vfs", "tcp") and k < len(acts):
+        pred = known_defect_prediction(acts, local)
+        if pred[k] == remote[k] and pred[k] != local[k]:
+            op = acts[k][0]
+            cls = ("real-branch-tag-use-after-verb-tag-write" if op in TAG_REAL_USERS
+                   else "verb-tag-use-after-real-branch-pull" if op in TAG_VERB_USERS else None)
+            if cls:
+                verdicts.append(("tags-differ:RemoteBranch-vs-_real_branch-tag-cache:write-locked:%s" % cls,
+                                 describe(acts, mode, k, what, local, remote), k, what))
+                ref = pred                      # from here on the run is held against the known behaviour
+                d = first_difference(acts, pred, remote)
+                if d is None:
+                    return verdicts
+                k, what, detail = d
+    if k < len(acts) and what == "returns" and stale_missing_revision_class(acts, k, mode, ref, remote):
+        verdicts.append(("revision-missing:RemoteRepository-missing-keys-cache:write-locked:asked-then-committed-with-fallback-attached",
+                         describe(acts, mode, k, what, ref, remote), k, what))
+        return verdicts                         # what this repository object says about that revision is not followed further
+    op = acts[k][0] if k < len(acts) else "-"
+    verdicts.append(("%s-differ:%s:%s:%s" % (what, op, mode, detail), describe(acts, mode, k, what, ref, remote), k, what))
+    return verdicts
+
+
+def describe(acts, mode, k, what, ref, remote):
+    if k >= len(acts):
+        return "the bzr:// (%s) run has %d steps, the local one %d" % (mode, len(remote), len(ref))
+    return "step %d %s through bzr:// (%s) %s: local %s, remote %s" % (
+        k + 1, acts[k], mode, what, ref[k][:2] if what == "returns" else ref[k][2],
+        remote[k][:2] if what == "returns" else remote[k][2])
 
 
 def replay_paths(sub, chunk):
@@ -520,17 +667,12 @@ def replay_paths(sub, chunk):
                     sub.machinery("the remote replay made no smart request")
                 nreq += reqs
         for mode in modes[1:]:
-            d = first_difference(acts, runs["local"], runs[mode])
-            if d is not None:
-                k, what, detail = d
-                op = acts[k][0] if k < len(acts) else "-"
-                cls = stale_tag_cache_class(acts, k, mode, what, runs["local"][k], runs[mode][k]) if k < len(acts) else None
-                sub.violation("tags-differ:RemoteBranch-vs-_real_branch-tag-cache:write-locked:%s" % cls if cls
-                              else "%s-differ:%s:%s:%s" % (what, op, mode, detail),
-                              "step %d %s through bzr:// (%s) %s: local %s, remote %s" % (
-                                  k + 1, acts[k], mode, what, runs["local"][k][:2] if what == "returns" else runs["local"][k][2],
-                                  runs[mode][k][:2] if what == "returns" else runs[mode][k][2]),
-                              {"acts": acts, "mode": mode, "step": k + 1, "local": runs["local"][k], "remote": runs[mode][k]})
+            verdicts = compare_runs(acts, mode, runs["local"], runs[mode])
+            for sig, text, k, what in verdicts:
+                sub.violation(sig, text, {"acts": acts[:k + 1], "mode": mode, "step": k + 1, "first": verdicts[0][2] + 1,
+                                          "path": json.dumps(acts),
+                                          "local": runs["local"][k] if k < len(acts) else None,
+                                          "remote": runs[mode][k] if k < len(acts) else None})
         sub.count(len(acts) * len(modes), traces=len(modes))
         muts = tuple(json.dumps(a) for a in acts if a[0] in MUTATORS)
         if len(muts) >= 2:
@@ -601,6 +743,54 @@ def cover(nodes, edges, inits, rng, max_len):
     return paths
 
 
+# what the client looks at after every state-changing call of a SESSION (below): each observer reads through one of the
+# caches a branch / repository object keeps while it is locked - last_revision_info, tags (RemoteBranch's), the merge-
+# sorted history and the dotted-revno map, the mainline (get_rev_id), the repository's parent map, the pending
+# configuration, and (push OUT of the branch) the tip, history and tags as the VFS fallback object sees them
+OBSERVERS = (["lastinfo"], ["tags"], ["mergesorted"], ["revnomap"], ["revidat", 2], ["parentmap"], ["getcfg"], ["pushout"])
+
+
+def session_paths(ctx, edges, inits, nmut):
+    """SESSIONS: behaviours of the graph in which ONE branch object is kept write-locked across several calls -
+    lock_write, then nmut state-changing operations, with all OBSERVERS before the first and after each of them (the
+    observers are self-loops of the graph).  All such paths of the graph, in a fixed order; releasing the lock ends a
+    session."""
+    out = collections.defaultdict(list)
+    acts = {}
+    for x, lab, y in edges:
+        if lab not in acts:
+            acts[lab] = parse_action(lab)
+        out[x].append((acts[lab], y))
+
+    def observed(x):
+        loops = [a for a, y in out[x] if y == x]
+        missing = [o for o in OBSERVERS if o not in loops]
+        if missing:
+            ctx.machinery("observers %s are not operations of the state graph" % missing)
+        return [list(o) for o in OBSERVERS]
+
+    paths = []
+
+    def extend(path, x, left):
+        path = path + observed(x)
+        if left == 0:
+            paths.append(path)
+            return
+        for a, y in out[x]:
+            if a[0] in MUTATORS:
+                if a[0] == "unlock":
+                    paths.append(path + [a] + observed(y)) if left == 1 else None
+                else:
+                    extend(path + [a], y, left - 1)
+
+    for a, y in out[inits[0]]:
+        if a == ["lock"]:
+            extend([a], y, nmut)
+    if not paths:
+        ctx.machinery("no session path in the state graph")
+    return paths
+
+
 def graph_paths(ctx, vfs, maxlen, max_len):
     # the invariants are checked on the Vfs=TRUE graph; the other one is a sub-graph of it
     cfg = model_cfg(vfs, maxlen, ctx.quick) if vfs else model_cfg(vfs, maxlen, ctx.quick, invariants=("StateOK",))
@@ -616,7 +806,7 @@ def graph_paths(ctx, vfs, maxlen, max_len):
     paths = cover(nodes, edges, inits, ctx.rng, max_len)
     ctx.cov.setdefault("graphs", []).append({"vfs": vfs, "max_ops": maxlen, "nodes": len(nodes), "edges": len(edges),
                                              "cover_paths": len(paths)})
-    return [[parse_action(e[1]) for e in p] for p in paths]
+    return [[parse_action(e[1]) for e in p] for p in paths], edges, inits
 
 
 def corrupted(rows):
@@ -636,33 +826,25 @@ def corrupted(rows):
     return [(a, ["%s@3" % a["runs"][1][0]], False), (b, [], True)]
 
 
-def judge(ctx, rows, chunk=400):
-    """BranchOpsTrace: TLC compares every recorded run with the other runs of its row (the property) and with
-    BranchOps!Run (conformance).  The last TLC run also gets the self-test rows, which it must reject."""
-    bad = []
-    test = corrupted(rows)
-    if not test and not ctx.violations:
-        ctx.machinery("no recorded row is long enough for the binding self-test")
-    offs = list(range(0, len(rows), chunk))
-    for off in offs:
-        part = rows[off:off + chunk]
-        extra = [t[0] for t in test] if off == offs[-1] else []
-        fin = os.path.join(ctx.workdir, "rows_%d.json" % int(time.time() * 1e6))
-        with open(fin, "w") as f:
-            json.dump(part + extra, f)
-        data, res = tlc.json_cases(ctx, "BranchOpsTrace", cfg_text="INIT Init\nNEXT Next\n", env={"VF_IN": fin},
-                                   label="BranchOpsTrace", workers=1, timeout=1500)
-        os.unlink(fin)
-        if data["n"] != len(part) + len(extra):
-            ctx.machinery("trace module consumed %s of %d rows" % (data["n"], len(part) + len(extra)))
-        verdicts = {b["row"]: b for b in data["bad"]}
-        for j, (_, failed, drift) in enumerate(test if extra else []):
-            v = verdicts.pop(len(part) + j + 1, {})
-            if sorted(v.get("failed", [])) != failed or bool(v.get("drift")) != drift:
-                ctx.machinery("binding self-test: TLC judged corrupted row %d as %s" % (j + 1, v))
-        for k in sorted(verdicts):
-            bad.append((part[k - 1], verdicts[k]))
-    return bad
+def judge(ctx, rows, test=()):
+    """BranchOpsTrace: TLC compares every recorded run with the other runs of its row (the property) and the local run
+    with BranchOps!Run (conformance).  `test`: self-test rows (corrupted()) appended to this TLC run, which it must
+    reject as stated.  Returns [(row index, verdict)] for the rows TLC objects to."""
+    extra = [t[0] for t in test]
+    fin = os.path.join(ctx.workdir, "rows_%d_%d.json" % (os.getpid(), int(time.time() * 1e6)))
+    with open(fin, "w") as f:
+        json.dump([{"acts": r["acts"], "runs": r["runs"]} for r in list(rows) + extra], f)
+    data, res = tlc.json_cases(ctx, "BranchOpsTrace", cfg_text="INIT Init\nNEXT Next\n", env={"VF_IN": fin},
+                               label="BranchOpsTrace", workers=1, timeout=1500)
+    os.unlink(fin)
+    if data["n"] != len(rows) + len(extra):
+        ctx.machinery("trace module consumed %s of %d rows" % (data["n"], len(rows) + len(extra)))
+    verdicts = {b["row"]: b for b in data["bad"]}
+    for j, (_, failed, drift) in enumerate(test):
+        v = verdicts.pop(len(rows) + j + 1, {})
+        if sorted(v.get("failed", [])) != failed or bool(v.get("drift")) != drift:
+            ctx.machinery("binding self-test: TLC judged corrupted row %d as %s" % (j + 1, v))
+    return [(k - 1, verdicts[k]) for k in sorted(verdicts)]
 
 
 def setup(ctx):
@@ -686,16 +868,27 @@ def replay(ctx, rep):
         print("%2d %-22s local %-40s %s %s" % (k + 1, a, rows[0][1][k][:2], r["mode"], rows[1][1][k][:2]))
 
 
+def judge_chunk(sub, chunk):
+    """fork_map worker: one TLC run of BranchOpsTrace per chunk of rows (the TLC starts run side by side)."""
+    for rows, test in chunk:
+        sub.cov.setdefault("_collect", []).append({"bad": judge(sub, rows, test), "rows": [r["path_id"] for r in rows]})
+
+
 def run(ctx):
     setup(ctx)
     maxlen = 4 if ctx.quick else 5
-    # anti-vacuity: one TLC run (-continue) must violate every witness invariant
-    res = tlc.run(ctx, "BranchOpsMC", cfg_text=model_cfg(True, 3, ctx.quick, invariants=WITNESSES), workers=1,
-                  allow_violation=True, extra=("-continue",), timeout=900)
+    # design check + anti-vacuity in one small TLC run (-continue): every invariant of the model holds (the costly ones
+    # are only checked here), every witness invariant is violated.  TLC reports the FIRST violated invariant of a state.
+    design = ("GraphOK",) + INVARIANTS
+    res = tlc.run(ctx, "BranchOpsMC", cfg_text=model_cfg(True, 2 if ctx.quick else 3, ctx.quick, invariants=design + WITNESSES),
+                  workers=1, allow_violation=True, extra=("-continue",), timeout=900)
+    broken = [i for i in design if "Invariant %s is violated" % i in res["output"]]
+    if broken:
+        ctx.machinery("the model itself violates %s" % broken)
     missing = [w for w in WITNESSES if "Invariant %s is violated" % w not in res["output"]]
     if missing:
         ctx.machinery("vacuity guard: TLC did not reach %s" % missing)
-    ctx.add_tlc(res, "witnesses " + " ".join(WITNESSES))
+    ctx.add_tlc(res, "design + witnesses " + " ".join(WITNESSES))
     # the operations BranchOps!VfsOps declares VFS-only: what a server without VFS verbs answers to them (informational;
     # one that works there could move out of VfsOps)
     obs = {}
@@ -704,46 +897,86 @@ def run(ctx):
         if obs[a[0]] == "":
             ctx.drift("%s works without VFS verbs but BranchOps!VfsOps lists it" % a[0], {"op": a})
     ctx.cov["vfs_only_ops_without_vfs"] = obs
-    full = graph_paths(ctx, True, maxlen, 16)
-    nov = graph_paths(ctx, False, maxlen, 16)
-    budget = 300 if ctx.quick else 3000
+    full, edges, inits = graph_paths(ctx, True, maxlen, 16)
     jobs = []
-    for paths, modes, share in ((full, ["local", "vfs"], 0.6), (nov, ["local", "vfs", "novfs"], 0.4)):
+    # (1) SESSIONS: one object kept write-locked across its calls, every observer after every call - all of them for
+    #     two state-changing calls under the lock; thorough adds a seeded sample of those with three
+    sessions = session_paths(ctx, edges, inits, 2)
+    ctx.cov["session_paths"] = len(sessions)
+    jobs += [(p, ["local", "vfs"]) for p in sessions]
+    if not ctx.quick:
+        longer = session_paths(ctx, edges, inits, 3)
+        ctx.cov["session_paths_3"] = len(longer)
+        jobs += [(p, ["local", "vfs"]) for p in ctx.rng.sample(longer, min(600, len(longer)))]
+    # (2) a seeded sample of the edge cover; a path without VFS-only operations also runs against a server without VFS
+    #     verbs; thorough also covers the graph of the model without those operations
+    budget = 200 if ctx.quick else 3000
+    plans = [(full, ["local", "vfs"], 1.0)]
+    ncover = len(full)
+    if not ctx.quick:
+        nov = graph_paths(ctx, False, maxlen, 16)[0]
+        plans = [(full, ["local", "vfs"], 0.6), (nov, ["local", "vfs", "novfs"], 0.4)]
+        ncover += len(nov)
+    nsampled = 0
+    for paths, modes, share in plans:
         k = min(len(paths), int(budget * share))
+        nsampled += k
         for p in (ctx.rng.sample(paths, k) if k < len(paths) else paths):
             m = list(modes)
             if "novfs" not in m and not any(a[0] in VFS_OPS for a in p):
                 m.append("novfs")
             jobs.append((p, m))
-    # the shortest behaviours of the graph that show the known defect (stale_tag_cache_class), one per input class - so
-    # that every run of the check exercises it, whatever the sample
+    # (3) the shortest behaviours of the graph that show the known defects, one per input class - so that every run of
+    #     the check exercises them, whatever the sample
     for p in KNOWN_DEFECT_PATHS:
         jobs.append(([list(a) for a in p], ["local", "vfs"]))
     if not ctx.quick:
         # cross-check of the in-process medium: some behaviours also through a real SmartTCPServer on loopback
-        for j in range(min(TCP_PATHS, len(jobs))):
+        for j in range(len(jobs) - 1, max(len(jobs) - 1 - TCP_PATHS, -1), -1):
             jobs[j] = (jobs[j][0], jobs[j][1] + ["tcp"])
         ctx.cov["tcp_paths"] = min(TCP_PATHS, len(jobs))
+    # heavy paths first, so that the parallel replay ends evenly
+    jobs.sort(key=lambda j: -len(j[0]) * len(j[1]))
     ctx.cov["replayed_paths"] = len(jobs)
-    ctx.cov["exhaustive"] = len(jobs) >= len(full) + len(nov)
-    core.fork_map(ctx, replay_paths, jobs)
+    ctx.cov["exhaustive"] = nsampled >= ncover
+    core.fork_map(ctx, replay_paths, jobs, chunks_per_proc=8)
     rows = ctx.collected
+    ctx.collected = []
     ctx.cov["smart_requests"] = sum(r["requests"] for r in rows)
     if len(rows) != len(jobs):
         ctx.machinery("%d of %d behaviours recorded" % (len(rows), len(jobs)))
-    pyfail = {(v[2]["mode"], v[2]["step"], json.dumps(v[2]["acts"])) for v in ctx.violations}
+    if not any(m == "novfs" for r in rows for m, _ in r["runs"]):
+        ctx.machinery("no behaviour was replayed against a server without VFS verbs")
+    pyfail = {(v[2]["mode"], v[2]["first"], v[2]["path"]) for v in ctx.violations}
     tlcfail = set()
-    for row, b in judge(ctx, rows):
-        acts = row["acts"]
-        runs = dict(row["runs"])
-        for f in b.get("failed", []):
-            mode, k = f.split("@")
-            tlcfail.add((mode, int(k), json.dumps(acts)))
-        if b.get("drift"):
-            k, mode = b["at"], b["mode"]
-            got = runs[mode][k - 1] if k - 1 < len(runs[mode]) else None
-            ctx.drift("%s run, step %d %s: recorded %s, specified %s" % (mode, k, acts[k - 1], got, b.get("want")),
-                      {"acts": acts, "mode": mode, "step": k})
+    # TLC judges the recorded runs, a chunk of rows per TLC start, the starts side by side; the last chunk carries the
+    # binding self-test
+    for k, r in enumerate(rows):
+        r["path_id"] = k
+    test = corrupted(rows)
+    if not test and not ctx.violations:
+        ctx.machinery("no recorded row is long enough for the binding self-test")
+    size = max(40, -(-len(rows) // (4 * core.max_workers())))
+    parts = [rows[i:i + size] for i in range(0, len(rows), size)]
+    core.fork_map(ctx, judge_chunk, [(part, test if i == len(parts) - 1 else []) for i, part in enumerate(parts)],
+                  chunks_per_proc=len(parts))
+    judged = 0
+    for c in ctx.collected:
+        judged += len(c["rows"])
+        for idx, b in c["bad"]:
+            row = rows[c["rows"][idx]]
+            acts = row["acts"]
+            runs = dict(row["runs"])
+            for f in b.get("failed", []):
+                mode, k = f.split("@")
+                tlcfail.add((mode, int(k), json.dumps(acts)))
+            if b.get("drift"):
+                k, mode = b["at"], b["mode"]
+                got = runs[mode][k - 1] if k - 1 < len(runs[mode]) else None
+                ctx.drift("%s run, step %d %s: recorded %s, specified %s" % (mode, k, acts[k - 1], got, b.get("want")),
+                          {"acts": acts[:k], "mode": mode, "step": k})
+    if judged != len(rows):
+        ctx.machinery("TLC judged %d of %d behaviours" % (judged, len(rows)))
     # the signatures come from replay_paths' comparison of the same records; TLC's verdict must be the same verdict
     if pyfail != tlcfail:
         ctx.machinery("harness and TLC disagree on the local/remote differences: %s vs %s" % (
@@ -753,9 +986,10 @@ def run(ctx):
     ctx.assume("generate_revision_history(absent revision): local GhostRevisionsHaveNoRevno == the verb's NoSuchRevision")
     ctx.assume("operations that RemoteBranch implements through _ensure_real (memory-tree commit, pull INTO the branch, "
                "push OUT of it) are exercised with VFS verbs enabled only; everything else also with BRZ_NO_SMART_VFS")
-    ctx.rule("paths = edge cover of TLC's state graph of BranchOpsMC (every edge = one client operation in one abstract "
-             "world; Vfs=TRUE graph replayed local + bzr://, Vfs=FALSE graph replayed local + bzr:// + bzr:// without VFS), "
-             "%s, plus the %d shortest paths that show the known tag-cache defect; non-trivial = at least 2 state-changing "
-             "operations; distinct = operation sequence"
-             % ("all of them" if ctx.cov["exhaustive"] else "seeded sample of %d" % (len(jobs) - len(KNOWN_DEFECT_PATHS)),
-                len(KNOWN_DEFECT_PATHS)))
+    ctx.rule("paths of TLC's state graph of BranchOpsMC (every edge = one client operation in one abstract world), each "
+             "replayed on the local path and through bzr:// (and against a server without VFS verbs when it has no "
+             "VFS-only operation): (1) ALL sessions lock_write . observers . op . observers . op . observers (%d)%s; "
+             "(2) %s of the edge cover; (3) the %d shortest paths that show the known defects; non-trivial = at least 2 "
+             "state-changing operations; distinct = operation sequence"
+             % (len(sessions), "" if ctx.quick else " and a seeded sample of 600 with three operations",
+                "all" if ctx.cov["exhaustive"] else "a seeded sample of %d" % nsampled, len(KNOWN_DEFECT_PATHS)))
